@@ -166,8 +166,9 @@ def run (c : Cfg) : St → List Label → Option St
 
 /-! ## The stage at THREAD granularity (package C16S): event-loop turns vs. real threads
 
-The real runner has one event-loop thread (all `schedule`d coroutines: `created`, `ack`, `forward`, `finish`)
-and REAL threads beside it (the previous stage, every worker's pulling thread, the consumer).  Even without
+The real runner has one event-loop thread (all `schedule`d coroutines: `created`, `ack`, `finish`)
+and REAL threads beside it (the previous stage, every worker's pulling thread, the pool threads that execute
+`async_put`, the consumer).  Even without
 a suspension point the loop thread can be pre-empted between sending the kick-off and `_start_enqueue()`:
 the worker may then already pull.  What the absence of an `await` guarantees is only that no OTHER step of
 the EVENT LOOP happens in between.  `stepT` is the `ackAwait = true` LTS (kick-off `created w` and registration
@@ -175,9 +176,11 @@ the EVENT LOOP happens in between.  `stepT` is the `ackAwait = true` LTS (kick-o
 step allowed is the `ack` of that worker.  The step-by-step tie (harness/lib_c16_stage.py) replays the
 projection of real runs against `stepT`. -/
 
-/-- steps executed by the single event-loop thread -/
+/-- steps executed by the single event-loop thread itself.  (`forward` is not one of them: `async_put` hands
+`self.put` to the runner's thread pool - `run_in_executor` - so the batch reaches the result queue on a pool
+thread, concurrently with the loop's current turn; found by the step-by-step tie.) -/
 def Label.isLoop : Label → Bool
-  | .created _ | .ack _ | .forward _ | .finish _ => true
+  | .created _ | .ack _ | .finish _ => true
   | _ => false
 
 /-- some coroutine is between its kick-off and its `_start_enqueue()` -/
